@@ -493,28 +493,28 @@ type monitor struct {
 	cfg    harness.Config
 	script harness.Script
 
-	session      bool // a backend session exists
-	greeted      bool
-	helo         string
-	tls          bool
-	authed       bool
-	txn          bool
-	rcpts        []string
-	chunked      bool
-	bytes        int64
-	binary       bool
-	written      bool // some payload octet of the open transfer reached the pipe
-	plan         harness.DataPlan
-	errors       int
-	closed       bool
-	uncertain    bool
+	session   bool // a backend session exists
+	greeted   bool
+	helo      string
+	tls       bool
+	authed    bool
+	txn       bool
+	rcpts     []string
+	chunked   bool
+	bytes     int64
+	binary    bool
+	written   bool // some payload octet of the open transfer reached the pipe
+	plan      harness.DataPlan
+	errors    int
+	closed    bool
+	uncertain bool
 	// lost: a TLS handshake failed. What the server keeps of the session is
 	// not specified; until the next successful greeting every step is
 	// unspecified (the trace invariants still apply), and whether an earlier
 	// authentication still counts stays open until the server shows it.
 	lost          bool
 	authUncertain bool
-	pendingBegin bool // transfer open, its Data call has not been seen to begin yet
+	pendingBegin  bool // transfer open, its Data call has not been seen to begin yet
 
 	nNew, nMail, nRcpt, nData, nSASL int
 
